@@ -230,7 +230,9 @@ func newShardOwner(s ShardInfo, ownerFreqs map[int]int) (uint64, error) {
 	)
 
 	for id, freq := range ownerFreqs {
-		if minId == -1 || freq < minFreq {
+		// Ties are broken by the lowest node id: the choice must not depend on
+		// map iteration order, every replica has to pick the same owner.
+		if minId == -1 || freq < minFreq || (freq == minFreq && int(id) < minId) {
 			minId, minFreq = int(id), freq
 		}
 	}
